@@ -6,12 +6,17 @@ import (
 	"os"
 	"path/filepath"
 	"sync/atomic"
+	"time"
 
 	"github.com/btcsuite/btcd/blockchain"
 	"github.com/btcsuite/btcd/btcutil/v2"
 	"github.com/btcsuite/btcd/chainhash/v2"
 	"github.com/btcsuite/btcd/database"
 	_ "github.com/btcsuite/btcd/database/ffldb"
+	"github.com/btcsuite/btcd/mempool"
+	"github.com/btcsuite/btcd/mining"
+	"github.com/btcsuite/btcd/netsync"
+	"github.com/btcsuite/btcd/peer"
 	"github.com/btcsuite/btcd/txscript/v2"
 	"github.com/btcsuite/btcd/wire/v2"
 
@@ -62,7 +67,21 @@ type NodeCfg struct {
 	Prune        uint64
 	SigCache     bool
 	HashCache    bool
+	Pool         *mempool.Policy // nil: no mempool / miner
+	Mining       mining.Policy
 }
+
+// stubNotifier is the PeerNotifier stub: it records, nothing else.
+type stubNotifier struct {
+	Announced int
+	Confirmed int
+	Relayed   int
+}
+
+func (s *stubNotifier) AnnounceNewTransactions(newTxs []*mempool.TxDesc) { s.Announced += len(newTxs) }
+func (s *stubNotifier) UpdatePeerHeights(*chainhash.Hash, int32, *peer.Peer) {}
+func (s *stubNotifier) RelayInventory(*wire.InvVect, interface{})         { s.Relayed++ }
+func (s *stubNotifier) TransactionConfirmed(*btcutil.Tx)                  { s.Confirmed++ }
 
 // Node wraps the real btcd chain (and later pool/miner) of one run.
 type Node struct {
@@ -73,6 +92,11 @@ type Node struct {
 	db    database.DB
 	Chain *blockchain.BlockChain
 	Time  blockchain.MedianTimeSource
+
+	Pool     *mempool.TxPool
+	SM       *netsync.SyncManager
+	Gen      *mining.BlkTmplGenerator
+	Notifier stubNotifier
 
 	sigCache  *txscript.SigCache
 	hashCache *txscript.HashCache
@@ -110,9 +134,10 @@ func (n *Node) Open() error {
 		return fmt.Errorf("db open: %w", err)
 	}
 	n.db = db
+	params := n.w.Net.Params()
 	chain, err := blockchain.New(&blockchain.Config{
 		DB:               db,
-		ChainParams:      n.w.Net.Params(),
+		ChainParams:      params,
 		TimeSource:       n.Time,
 		SigCache:         n.sigCache,
 		HashCache:        n.hashCache,
@@ -126,6 +151,30 @@ func (n *Node) Open() error {
 	}
 	n.Chain = chain
 	chain.Subscribe(n.notify)
+	if n.cfg.Pool != nil {
+		// wired exactly like server.go does
+		n.Pool = mempool.New(&mempool.Config{
+			Policy:         *n.cfg.Pool,
+			ChainParams:    params,
+			FetchUtxoView:  chain.FetchUtxoView,
+			BestHeight:     func() int32 { return chain.BestSnapshot().Height },
+			MedianTimePast: func() time.Time { return chain.BestSnapshot().MedianTime },
+			CalcSequenceLock: func(tx *btcutil.Tx, view *blockchain.UtxoViewpoint) (*blockchain.SequenceLock, error) {
+				return chain.CalcSequenceLock(tx, view, true)
+			},
+			IsDeploymentActive: chain.IsDeploymentActive,
+			SigCache:           n.sigCache,
+			HashCache:          n.hashCache,
+		})
+		// the real SyncManager is constructed (never started): its
+		// constructor subscribes the real block connect/disconnect handler
+		sm, err := netsync.New(&netsync.Config{PeerNotifier: &n.Notifier, Chain: chain, TxMemPool: n.Pool, ChainParams: params, MaxPeers: 8})
+		if err != nil {
+			return fmt.Errorf("netsync.New: %w", err)
+		}
+		n.SM = sm
+		n.Gen = mining.NewBlkTmplGenerator(&n.cfg.Mining, params, n.Pool, chain, n.Time, n.sigCache, n.hashCache)
+	}
 	// re-base the stack
 	n.stack = nil
 	tip := n.w.ByHash[chain.BestSnapshot().Hash]
